@@ -7,9 +7,11 @@ import GocoinV.Proofs.C19Effects
 namespace GocoinV.Proofs.C19
 open GocoinV GocoinV.Qdb GocoinV.QdbSpec
 
+variable {eg : Bool}
+
 /-- every record `NewDBidx` would rebuild from the directory can be loaded -/
-def DirReadable (F : FS) : Prop :=
-  ∀ kr ∈ diskIndex F, hasFlag kr.2.flags NO_CACHE = false ∧
+def DirReadable (eg : Bool) (F : FS) : Prop :=
+  ∀ kr ∈ diskIndex F, hasFlag kr.2.flags (ncOf eg) = false ∧
     ∃ f v, dlookup kr.2.seq F.dats = some f ∧ ReadsBack f kr.2 v
 
 /-- the value a reopen finds for key `k` in directory `F` -/
@@ -22,10 +24,10 @@ def LogDiscarded (F : FS) : Prop := ∃ f, F.log = some f ∧ logBody f (snapVer
 
 /-- what `NewDBExt` needs from a directory to come up with the invariants: the log is absent, canonical for the
     snapshot's version, or will be discarded; the version fits; every record can be read back -/
-structure OpenOK (F : FS) : Prop where
+structure OpenOK (eg : Bool) (F : FS) : Prop where
   log : (∃ E, (∀ e ∈ E, EntryFits e) ∧ LogState F (snapVer F) E) ∨ LogDiscarded F
   ver : snapVer F < 2^32
-  readable : DirReadable F
+  readable : DirReadable eg F
 
 /-- the log of `F` is the one of `F0`, or `F0` had none and `F` holds a freshly created one (empty, or header only) -/
 def LogRel (F0 F : FS) : Prop :=
@@ -34,9 +36,9 @@ def LogRel (F0 F : FS) : Prop :=
 theorem LogRel.refl (F : FS) : LogRel F F := Or.inl rfl
 
 /-- opening (LoadData) a readable directory never fails and gives every key its disk value -/
-theorem open_readable (F : FS) (h : DirReadable F) (vol : Bool) (opts : Opts) :
-    (openDB F vol true opts).failed = none ∧
-    ∀ k, (ilookup k (openDB F vol true opts).index).map valOf = diskValue F k := by
+theorem open_readable (F : FS) (h : DirReadable eg F) (vol : Bool) (opts : Opts) :
+    (openDB F vol true opts eg).failed = none ∧
+    ∀ k, (ilookup k (openDB F vol true opts eg).index).map valOf = diskValue F k := by
   obtain ⟨dbB, used, hoi, hidx, hdats, hfl, hused⟩ := openIndex_used F vol opts
   have hfr := frame_cleanupold dbB used
   have hXi : (cleanupold dbB used).index = diskIndex F := hfr.index.trans hidx
@@ -51,7 +53,7 @@ theorem open_readable (F : FS) (h : DirReadable F) (vol : Bool) (opts : Opts) :
     intro kr hkr
     obtain ⟨h1, f, v, h3, h4⟩ := h kr hkr
     exact ⟨h1, f, v, by rw [hXd kr hkr]; exact h3, h4⟩) []
-  have hopen : openDB F vol true opts = { loadAll (cleanupold dbB used) with
+  have hopen : openDB F vol true opts eg = { loadAll (cleanupold dbB used) with
       dataSeq := u32 ((loadAll (cleanupold dbB used)).maxSeq + 1) } := by
     unfold openDB
     simp only [↓reduceIte]
@@ -90,9 +92,9 @@ theorem Grown.sameIndex {F0 F : FS} {keep : Nat → Prop} (h : Grown F0 F keep) 
   rw [h.logs, hp]
 
 /-- a grown directory is as readable as the old one and every key has the same disk value -/
-theorem Grown.readable {F0 F : FS} {keep : Nat → Prop} (h : Grown F0 F keep) (h0 : DirReadable F0)
+theorem Grown.readable {F0 F : FS} {keep : Nat → Prop} (h : Grown F0 F keep) (h0 : DirReadable eg F0)
     (hk : ∀ kr ∈ diskIndex F0, keep kr.2.seq) :
-    DirReadable F ∧ ∀ k, diskValue F k = diskValue F0 k := by
+    DirReadable eg F ∧ ∀ k, diskValue F k = diskValue F0 k := by
   have hD := h.sameIndex
   constructor
   · intro kr hkr
@@ -256,9 +258,9 @@ theorem logcreate_log (F : FS) (ver : Nat) (hl : F.log = none) (n : Nat) :
 
 /-- a directory that grew out of an openable one (same index files, same or freshly created log, data files only
     longer) is openable -/
-theorem openOK_of_grown {F0 F : FS} {keep : Nat → Prop} (h : Grown F0 F keep) (hl : LogRel F0 F) (h0 : OpenOK F0)
+theorem openOK_of_grown {F0 F : FS} {keep : Nat → Prop} (h : Grown F0 F keep) (hl : LogRel F0 F) (h0 : OpenOK eg F0)
     (hlog0 : ∃ E, (∀ e ∈ E, EntryFits e) ∧ LogState F0 (snapVer F0) E)
-    (hk : ∀ kr ∈ diskIndex F0, keep kr.2.seq) : OpenOK F := by
+    (hk : ∀ kr ∈ diskIndex F0, keep kr.2.seq) : OpenOK eg F := by
   have hsv : snapVer F = snapVer F0 := snapVer_congr F0 F h.idx0 h.idx1
   refine ⟨?_, by rw [hsv]; exact h0.ver, (h.readable h0.readable hk).1⟩
   rw [hsv]
@@ -357,7 +359,7 @@ theorem sync_prefix_grown (db : DB) (inv : DiskInv db) (n : Nat) (hn : n < (sync
   exact ⟨(gA.trans gB).trans hC.1, hC.2⟩
 
 /-- a reachable state's directory is openable -/
-theorem openOK_of_inv (db : DB) (inv : DiskInv db) : OpenOK db.fs :=
+theorem openOK_of_inv (db : DB) (inv : DiskInv db) : OpenOK eg db.fs :=
   ⟨Or.inl (by obtain ⟨E, hE, hs⟩ := inv.logst; exact ⟨E, hE, by rw [inv.ver]; exact hs⟩),
    by rw [inv.ver]; exact inv.verlt, fun kr hkr => ⟨inv.dflags kr hkr, inv.dreads kr hkr⟩⟩
 
@@ -369,13 +371,13 @@ theorem sync_keep (db : DB) (inv : DiskInv db) :
   | false => exact Or.inr (inv.dat2 ho kr hkr)
 
 theorem sync_prefix (db : DB) (inv : DiskInv db) (n : Nat) (hn : n < (syncEffs db).length) :
-    DirReadable (db.fs.applyAll ((syncEffs db).take n)) ∧
+    DirReadable eg (db.fs.applyAll ((syncEffs db).take n)) ∧
     ∀ k, diskValue (db.fs.applyAll ((syncEffs db).take n)) k = diskValue db.fs k :=
   (sync_prefix_grown db inv n hn).1.readable (openOK_of_inv db inv).readable (sync_keep db inv)
 
 /-- every directory strictly inside sync() is openable (so that the invariants hold again after NewDBExt) -/
 theorem sync_prefix_ok (db : DB) (inv : DiskInv db) (n : Nat) (hn : n < (syncEffs db).length) :
-    OpenOK (db.fs.applyAll ((syncEffs db).take n)) := by
+    OpenOK eg (db.fs.applyAll ((syncEffs db).take n)) := by
   obtain ⟨g, l⟩ := sync_prefix_grown db inv n hn
   exact openOK_of_grown g l (openOK_of_inv db inv)
     (by obtain ⟨E, hE, hs⟩ := inv.logst; exact ⟨E, hE, by rw [inv.ver]; exact hs⟩) (sync_keep db inv)
